@@ -74,6 +74,11 @@ CHECKS = {
          "Model checking of callback ordering plus conformance of the real affected-flag and callbacks; a violation is a missed invalidation, a spurious one at the stated boundary, a wrong callback count/order, a callback before the index commit, or a changed served result without reset/query event.",
          "Query-change Events() of badgerstore reports only the reset flag (no event lists); the client-side replay of query events is covered by C15/C10 machinery, here only 'told whenever the result differs' is judged end to end.",
          "4.3 C14"),
+ "C20": ("legacy", "model_checking",
+         "TLA+ fold specification of the legacy middleware (ResLegacy.tla: LStep per event = applicability, effect on the stored value, whether it is published, listener old values; LFirstBad folds an observed history) on top of the reference client ResClient.tla: TLC model-checks every event sequence of the bound (MCLegacy: a client applying the published events holds what is served); random event histories from With callbacks on 10 configurations of both packages on a real BadgerDB are recorded per event (published?, listener payload, get response, Value()) and after close/reopen, and judged by TLC (TraceLegacy.tla)",
+         "Model checking of the fold semantics plus conformance of real event histories; a violation is a real event whose publication, listener payload, served value or Value() deviates from the fold, or a served value that differs after reopening the database.",
+         "Values are canonical JSON texts; the removed value handed to remove listeners and the publication of a delete event on a missing resource are outside the property and not judged.",
+         "4.3 C20"),
  "C15": ("qevent", "model_checking",
          "TLA+ query-event specification (ResQueryEvent.tla: subscribe, deliver, listener take/enqueue, timer, drain, end-with-nil, callback, release): TLC model-checks AtMostOneReply/NilAtMostOnce/NilLast/FailedSub and the liveness properties Answered/Ends/Released; counterexamples of the shipped design (ListenerEndsQuery=FALSE) and tlc -simulate behaviours of the repaired design are replayed on the real service through gates in the listener and the expiry path; random histories, subscription failures, long histories; one record per real query event judged by TLC (TraceQueryObs.tla)",
          "Exhaustive model checking (3 requests, channel capacity 2, failing subscription) with safety and liveness, bound to the code by gate replay of model behaviours and TLC-judged records of real query events; a violation is a real query event with a missing/duplicate reply, a missing, repeated or non-final nil call, or a listener goroutine left running.",
